@@ -1,5 +1,5 @@
 (* line: c nent ent.. nitems item*    item: 0 n codes.. (text) | 1 n codes.. (closed) | 2 npre pre.. nchildren (nitems item* ntail tail..)*
-   out: code points of the escaped value's rendering, comma separated ("-" when empty) *)
+   out: open_renders flag, '|', code points of the escaped value's rendering, comma separated ("-" when empty) *)
 let () = iter_lines (fun line ->
   match ints_of_line line with
   | c :: rest ->
@@ -16,5 +16,6 @@ let () = iter_lines (fun line ->
              IOpen (pre, List.init nch (fun _ -> let its = items () in let tl = codes () in (its, tl))) in
     let v = items () in
     let r = n_escape (n_of_int c) ent v in
-    print_endline (if r = [] then "-" else String.concat "," (List.map (fun x -> string_of_int (int_of_n x)) r))
+    print_endline ((if n_open_renders (n_of_int c) v then "1|" else "0|") ^
+                   (if r = [] then "-" else String.concat "," (List.map (fun x -> string_of_int (int_of_n x)) r)))
   | [] -> print_endline "")
